@@ -508,9 +508,9 @@ func (q *Query) SMT(withModel bool) string {
 		if len(sh.Kinds) == 1 {
 			switch {
 			case sh.Kinds[0] == "B8":
-				ax(fmt.Sprintf("(= (dec_be8 %s) a0)", app.String()))
+				ax(fmt.Sprintf("(=> (and (<= 0 a0) (<= a0 18446744073709551615)) (= (dec_be8 %s) a0))", app.String()))
 			case sh.Kinds[0] == "B4":
-				ax(fmt.Sprintf("(= (dec_be4 %s) a0)", app.String()))
+				ax(fmt.Sprintf("(=> (and (<= 0 a0) (<= a0 4294967295)) (= (dec_be4 %s) a0))", app.String()))
 			case sh.Kinds[0] == "TM":
 				ax(fmt.Sprintf("(and (= (dec_tm %s) a0) (ok_tm %s))", app.String(), app.String()))
 			case strings.HasPrefix(sh.Kinds[0], "PB"):
